@@ -530,11 +530,14 @@ def register(E):
             return rfind_pred(E, s, lambda i: f(i)[0])
         if op in ('split_once', 'rsplit_once'):
             outs = find_pred(E, s, lambda i: f(i)[0]) if op == 'split_once' else rfind_pred(E, s, lambda i: f(i)[0])
-            (cf, sv), (cn, _) = outs
-            r = sv.fields[0].v
-            ln = f(r)[1]
-            pair = Tup([sub(s, bv(0), r), sub(s, r + ln, s.ln - r - ln)])
-            return [(cf, some(pair)), (cn, NONE)]
+            res = []
+            for c_, v_ in outs:         # two outcomes (index variable) or one per concrete position
+                if v_.variant == 'None':
+                    res.append((c_, NONE)); continue
+                r = v_.fields[0].v
+                ln = f(r)[1]
+                res.append((c_, some(Tup([sub(s, bv(0), r), sub(s, z3.simplify(r + ln), z3.simplify(s.ln - r - ln))]))))
+            return res
         if op in ('trim_start_matches', 'trim_end_matches'):
             if kind == 'str':
                 pc = p.conc()
@@ -558,9 +561,13 @@ def register(E):
             if sbp is None:
                 raise Inconclusive(op + ' with a non-ASCII pattern')
             if op == 'trim_start_matches':
-                (cf, sv), (cn, _) = find_pred(E, s, lambda i: z3.Not(sbp(s.at(i))), byte_pred=lambda b: z3.Not(sbp(b)))
-                r = sv.fields[0].v
-                return [(cf, sub(s, r, s.ln - r)), (cn, sub(s, s.ln, bv(0)))]
+                res = []
+                for c_, v_ in find_pred(E, s, lambda i: z3.Not(sbp(s.at(i))), byte_pred=lambda b: z3.Not(sbp(b))):
+                    if v_.variant == 'None':
+                        res.append((c_, sub(s, s.ln, bv(0)))); continue
+                    r = v_.fields[0].v
+                    res.append((c_, sub(s, r, z3.simplify(s.ln - r))))
+                return res
             (cf, sv), (cn, _) = rfind_pred(E, s, lambda i: z3.Not(sbp(s.at(i))))
             r = sv.fields[0].v
             return [(cf, sub(s, bv(0), r + 1)), (cn, sub(s, bv(0), bv(0)))]
@@ -863,6 +870,15 @@ def register(E):
         n = min(cap(E, x), cap(E, y))
         lo = lambda b: z3.If(z3.And(z3.UGE(b, 65), z3.ULE(b, 90)), b + 32, b)
         return [(T, z3.And(x.ln == y.ln, *[z3.Implies(in_window(j, x), lo(x.at(j)) == lo(y.at(j))) for j in range(n)]))]
+
+    @model(r'^core::str::<impl str>::parse$')
+    def _(E, st, callee, a, m):
+        # `s.parse::<T>()` is `<T as FromStr>::from_str(s)`
+        from ..mirparse import turbofish
+        t = turbofish(callee)
+        if not t:
+            return None
+        return E.outs_to_model(E.call_value(st, FnItem('<' + t[0] + ' as std::str::FromStr>::from_str'), [a[0]]))
 
     @model(r'^<char as std::str::FromStr>::from_str$')
     def _(E, st, callee, a, m):
